@@ -977,6 +977,15 @@ impl<'r> Builder<'r> {
             self.cur_tx.outputs.push(o);
         }
 
+        if !self.cfg.balanced && !self.cfg.min_utxo && self.rng.chance(1, 8) {
+            // the same output twice: outputs are a list in source order, not a set
+            let k = self.rng.usize(self.cur_tx.outputs.len());
+            let mut o = self.cur_tx.outputs[k].clone();
+            o.name = None;
+            self.cur_tx.outputs.push(o);
+            self.tag("duplicate-output");
+        }
+
         if self.cfg.balanced {
             // final output = everything consumed - everything else produced - fees
             let mut e: Option<E> = None;
